@@ -189,12 +189,18 @@ def run_sites1(col, t, out):
         sites += (["MultiSetup_PreGER.def_geo1", "MultiSetup_PoSER.def_geo1"] if multi else ["SingleSetup.def_geo1"])
     if t.get("argform") == "array":
         sites = [x for x in sites if "def_geo1" in x]
-    for site in sites:
-        d, ref_ind = tables1(t)
+    # second definition from the very same table objects, as in run_sites2
+    sites = [x for s0 in sites for x in ([s0, s0 + "[again]"] if t["fault"] == "none" else [s0])]
+    d = ref_ind = None
+    for site_full in sites:
+        again = site_full.endswith("[again]")
+        site = site_full[:-len("[again]")] if again else site_full
+        if not again:
+            d, ref_ind = tables1(t)
         col.count()
         try:
             if site == "gen.check_on_geo1":
-                r = gen.check_on_geo1(d, ref_ind=ref_ind)
+                r = gen.check_on_geo1(dict(d), ref_ind=ref_ind)   # fresh dict (the function fills it in), same table objects
                 from pyoma2.support.geometry import Geometry1
 
                 geo = Geometry1(sens_names=r[0], sens_coord=r[1], sens_dir=r[2], sens_lines=r[3], bg_nodes=r[4], bg_lines=r[5], bg_surf=r[6])
@@ -220,6 +226,7 @@ def run_sites1(col, t, out):
             got = "ValueError"
         except Exception as e:
             got = type(e).__name__
+        site = site_full
         if got != out["outcome"]:
             what = "accepted_malformed" if got == "Geometry" else (f"raised_{got}" if out["outcome"] == "Geometry" else f"raised_{got}_not_ValueError")
             col.violation(f"{site}/{what}/{t['form']}/{t['fault']}" + ("/array_arguments" if t.get("argform") == "array" else ""),
@@ -352,13 +359,20 @@ def run_sites2(col, t, out):
         # documented ndarray forms of the optional line / surface / background tables (same prediction)
         if t["fault"] == "none" and set(t["opt"]) & ARRAY_OPT2:
             sites.append("SingleSetup.def_geo2[arrays]")
-    for site in sites:
-        d, ref_ind = tables2(t)
+    # a second definition from the very same table objects (the user re-defines the geometry with the tables they hold):
+    # the statement holds for every definition, so a definition must not consume or alter the caller's tables
+    sites = [x for s0 in sites for x in ([s0, s0 + "[again]"] if t["fault"] == "none" else [s0])]
+    d = ref_ind = None
+    for site_full in sites:
+        again = site_full.endswith("[again]")
+        site = site_full[:-len("[again]")] if again else site_full
+        if not again:
+            d, ref_ind = tables2(t)
         col.count()
         setup = None
         try:
             if site == "gen.check_on_geo2":
-                r = gen.check_on_geo2(d, ref_ind=ref_ind)
+                r = gen.check_on_geo2(dict(d), ref_ind=ref_ind)   # fresh dict (the function fills it in), same table objects
                 from pyoma2.support.geometry import Geometry2
 
                 geo = Geometry2(sens_names=r[0], pts_coord=r[1].astype(float), sens_map=r[2], cstrn=r[3], sens_sign=r[4], sens_lines=r[5],
@@ -377,6 +391,7 @@ def run_sites2(col, t, out):
             got = "ValueError"
         except Exception as e:
             got = type(e).__name__
+        site = site_full
         if got != out["outcome"]:
             what = "accepted_malformed" if got == "Geometry" else (f"raised_{got}" if out["outcome"] == "Geometry" else f"raised_{got}_not_ValueError")
             col.violation(f"{site}/{what}/{t['form']}/{t['fault']}" + ("" if "constraints" in t["opt"] else "/no_constraints_sheet"),
